@@ -95,6 +95,10 @@ impl Method for Integral {
 	type Output = Self::Input;
 
 	fn new(length: Self::Params, &value: &Self::Input) -> Result<Self, Error> {
+		if length == PeriodType::MAX {
+			return Err(Error::WrongMethodParameters);
+		}
+
 		Ok(Self {
 			window: Window::new(length, value),
 			value: value * length as ValueType,
